@@ -15,34 +15,39 @@ Proof.
   - inversion E; subst. apply andb_true_intro. split; [apply H; reflexivity|apply IH; reflexivity].
 Qed.
 
+Lemma list_eqb_false {A} (eqb : A -> A -> bool) (H : forall x y, eqb x y = true <-> x = y) a b : list_eqb eqb a b = false -> a <> b.
+Proof. intros E Hab. apply (list_eqb_spec eqb H) in Hab. congruence. Qed.
+
+(* case analysis on every equality test of the translated guard, whatever the order of its operands, then equational reasoning *)
+Ltac guard_cases :=
+  repeat match goal with
+  | |- context [list_eqb Z.eqb ?x ?y] =>
+      let E := fresh "E" in destruct (list_eqb Z.eqb x y) eqn:E;
+      [apply (list_eqb_spec Z.eqb Z.eqb_eq) in E | apply (list_eqb_false Z.eqb Z.eqb_eq) in E]
+  | |- context [list_eqb N.eqb ?x ?y] =>
+      let E := fresh "E" in destruct (list_eqb N.eqb x y) eqn:E;
+      [apply (list_eqb_spec N.eqb N.eqb_eq) in E | apply (list_eqb_false N.eqb N.eqb_eq) in E]
+  | |- context [N.eqb ?x ?y] =>
+      let E := fresh "E" in destruct (N.eqb x y) eqn:E; [apply N.eqb_eq in E | apply N.eqb_neq in E]
+  end.
+Ltac guard_finish :=
+  cbn; split;
+  [ let H := fresh "H" in intro H; try discriminate H; subst; eexists; split; reflexivity
+  | let H := fresh "H" in let H1 := fresh "H" in let H2 := fresh "H" in let w := fresh "w" in
+    intro H; try (destruct H as (w & H1 & H2);
+                  first [discriminate H1 | discriminate H2 | (inversion H1; inversion H2; subst; first [reflexivity | congruence])]) ].
+
 Theorem gen_validate_windows_ok mine theirs :
   gen_validate_windows mine theirs = true <-> exists ws, mine = Some ws /\ theirs = Some ws.
-Proof.
-  unfold gen_validate_windows. destruct mine as [a|], theirs as [b|]; cbn; split; intro H;
-    try discriminate; try (destruct H as (ws & H1 & H2); discriminate).
-  - destruct (list_eqb Z.eqb a b) eqn:E; [|discriminate]. apply (list_eqb_spec Z.eqb Z.eqb_eq) in E. subst. exists b. split; reflexivity.
-  - destruct H as (ws & H1 & H2). inversion H1; inversion H2; subst.
-    rewrite (proj2 (list_eqb_spec Z.eqb Z.eqb_eq ws ws) eq_refl). reflexivity.
-Qed.
+Proof. unfold gen_validate_windows. destruct mine as [a|], theirs as [b|]; cbn; guard_cases; guard_finish. Qed.
 
 Theorem gen_validate_gene_names_ok mine theirs :
   gen_validate_gene_names mine theirs = true <-> exists gs, mine = Some gs /\ theirs = Some gs.
-Proof.
-  unfold gen_validate_gene_names. destruct mine as [a|], theirs as [b|]; cbn; split; intro H;
-    try discriminate; try (destruct H as (ws & H1 & H2); discriminate).
-  - destruct (list_eqb N.eqb a b) eqn:E; [|discriminate]. apply (list_eqb_spec N.eqb N.eqb_eq) in E. subst. exists b. split; reflexivity.
-  - destruct H as (ws & H1 & H2). inversion H1; inversion H2; subst.
-    rewrite (proj2 (list_eqb_spec N.eqb N.eqb_eq ws ws) eq_refl). reflexivity.
-Qed.
+Proof. unfold gen_validate_gene_names. destruct mine as [a|], theirs as [b|]; cbn; guard_cases; guard_finish. Qed.
 
 Theorem gen_validate_chromosome_ok mine theirs :
   gen_validate_chromosome mine theirs = true <-> exists c, mine = Some c /\ theirs = Some c.
-Proof.
-  unfold gen_validate_chromosome. destruct mine as [a|], theirs as [b|]; cbn; split; intro H;
-    try discriminate; try (destruct H as (ws & H1 & H2); discriminate).
-  - destruct (N.eqb a b) eqn:E; [|discriminate]. apply N.eqb_eq in E. subst. exists b. split; reflexivity.
-  - destruct H as (ws & H1 & H2). inversion H1; inversion H2; subst. rewrite N.eqb_refl. reflexivity.
-Qed.
+Proof. unfold gen_validate_chromosome. destruct mine as [a|], theirs as [b|]; cbn; guard_cases; guard_finish. Qed.
 
 Lemma forallb2_zip (f : N -> N -> bool) : (forall x y, f x y = N.eqb x y) ->
   forall a b, forallb2 f a b = zip_all_eq a b.
@@ -55,10 +60,8 @@ Theorem gen_validate_split_ok genes tes : gen_validate_split genes tes = validat
 Proof.
   unfold gen_validate_split, validate_split.
   destruct (Nat.eqb (length genes) (length tes)); cbn [negb andb]; [|reflexivity].
-  rewrite andb_true_r. apply forallb2_zip. intros x y. cbv zeta.
-  destruct (N.eqb_spec y x) as [->|Hn]; cbn [negb].
-  - rewrite N.eqb_refl. reflexivity.
-  - symmetry. apply N.eqb_neq. intro E. apply Hn. symmetry. exact E.
+  rewrite ?andb_true_r. apply forallb2_zip. intros x y. cbv zeta.
+  destruct (N.eqb_spec x y); destruct (N.eqb_spec y x); subst; cbn [negb]; try reflexivity; congruence.
 Qed.
 
 Lemma forallb_map' {A B} (f : B -> bool) (g : A -> B) l : forallb f (map g l) = forallb (fun x => f (g x)) l.
